@@ -331,9 +331,21 @@ pub fn c27(args: &Args) -> i32 {
     }
     let run = Run::new(args, "model_checking", 55.0, 1800.0);
     let max_lines = if run.quick() { 2 } else { 3 };
-    let progs = programs(max_lines, &alpha);
+    let mut progs = programs(max_lines, &alpha);
+    if run.quick() {
+        // the quick tier also takes every three-line program over the lines that move between KGs or change their
+        // existence (a switch that fails at run time is the dangerous case) plus one write and one read
+        let nav: Vec<usize> = alpha.iter().enumerate().filter(|(_, (n, _))| matches!(*n, "kguse" | "kgcreate" | "kgcreate_existing" | "kgdrop_b" | "insert" | "query" | "indented_kguse")).map(|(i, _)| i).collect();
+        for a in &nav {
+            for b in &nav {
+                for c in &nav {
+                    progs.push(vec![*a, *b, *c]);
+                }
+            }
+        }
+    }
     let idents = all_idents();
-    run.set_rule("all programs of 1..L lines over a 17-symbol line alphabet (query, insert, delete, persistent rule, schema, .rel drop, .rule drop, .kg use B, .kg create C, three comment styles, trailing comment, blank line, indented continuation, session rule, session fact) x 32 identities (global viewer/editor x role on A x role on B in none/viewer/editor/owner), submitted through Handler::execute_program on KG A of a freshly built two-KG store; a KG on which the caller lacks write permission must be unchanged (facts, rules, schemas), the internal KG unchanged, no KG created by a global viewer. non-trivial = (program, identity) pairs whose program contains a state-changing line");
+    run.set_rule("all programs of 1..L lines (L = 2 quick, 3 thorough; quick adds every 3-line program over the 7 lines that switch, create or drop a KG, write or read) over a 27-symbol line alphabet (query, insert, delete, persistent rule, schema, .rel drop, .rule drop, .kg use B, .kg create C, .kg create B (exists), three comment styles, trailing comment, blank line, indented continuation, indented statements, session rule, session fact, .rel, .kg drop B, .kg acl grant B, and two meta commands split over two lines) x 32 identities (global viewer/editor x role on A x role on B in none/viewer/editor/owner), submitted through Handler::execute_program on KG A of a freshly built two-KG store; a KG on which the caller lacks write permission must be unchanged (facts, rules, schemas), the internal KG unchanged, no KG created by a global viewer. non-trivial = (program, identity) pairs whose program contains a state-changing line");
     run.put("programs", json!(progs.len()));
     run.put("identities", json!(idents.len()));
     let total = progs.len() * idents.len();
